@@ -69,7 +69,7 @@ Definition set_memid (s : state) (m : N) : state :=
 (** Running state of the replay. *)
 Record acc := { a_st : state; a_ws : list rec; a_mis : bool; a_vio : bool; a_known : N; a_next : N;
   a_broken : bool;  (* some state of the run violated the recency order of equal internal keys ([tier_inv_b]) *)
-  a_struct : bool   (* some state had an unsorted source or overlapping main tables ([src_b] false): never a known class *) }.
+  a_struct : bool   (* some state had an unsorted source, overlapping main tables ([src_b] false) or a cross-tier recency inversion ([cross_b] false): never a known class *) }.
 
 Definition classify (spec model : option rec) (obs : option (bytes * N)) : N :=
   (* a violation the faithful model reproduces: 1 = an older write of the same
@@ -140,11 +140,21 @@ Definition step (now : N) (a : acc) (o : xop) : acc :=
 Definition changes_state (o : xop) : bool :=
   match o with XPut _ | XRotate _ | XFlush | XCompact _ _ _ _ _ | XReopen _ _ | XCommit _ | XLayout _ _ _ => true | _ => false end.
 
+(** Copies of one internal key in DIFFERENT tiers (memtables, L0, each level) must be
+    most-recent-first: a newer copy below an older one can only come from a planner or
+    maintenance defect and is never attributed to the known ingest/L0 ordering finding,
+    which concerns copies inside one tier. *)
+Fixpoint cross_b (tiers : list (list (list rec))) : bool :=
+  match tiers with
+  | [] => true
+  | t :: rest => forallb (fun t0 => src_before_b (List.concat t) (List.concat t0)) rest && cross_b rest
+  end.
+
 Definition step' (now : N) (a : acc) (o : xop) : acc :=
   let a' := step now a o in
   if changes_state o && negb (a_broken a' && a_struct a') then
     let ok := tier_inv_b (a_st a') in
-    let sok := src_b (a_st a') in
+    let sok := src_b (a_st a') && cross_b (tiers_of (a_st a')) in
     {| a_st := a_st a'; a_ws := a_ws a'; a_mis := a_mis a'; a_vio := a_vio a'; a_known := a_known a';
        a_next := a_next a'; a_broken := a_broken a' || negb ok; a_struct := a_struct a' || negb sok |}
   else a'.
